@@ -7,7 +7,9 @@
   Wire format (trusted glue):
     shape : "any" | "untyped" | {"s": cat} | {"c": kind, "item": shape}
             | {"k": kind, "fields": [[name, shape], …]} | {"w": kind, "inner": shape}
-    cells : [[tag, [[key, item], …]], …]   (address = position);  item : 0 (atom) | {"r": address}
+            | {"wn": kind, "pick": "first" | n, "opts": [shape, …]} | {"o": shape}
+    cells : [[tag, [[key, item], …]], …]   (address = position)
+    item : n (atom; n = Python class of the scalar: 0 None, 1 bool, 2 int, 3 float, 4 str, 5 other) | {"r": address}
 -/
 import Lean.Data.Json
 import TypedpyModel.Spec.AliasScope
@@ -28,7 +30,7 @@ def kindOf : String → Except String Kind
   | "tuple" => pure .tuple | "map" => pure .map | "arrayPos" => pure .arrayPos | "dequePos" => pure .dequePos
   | "tuplePos" => pure .tuplePos | "struct" => pure .struct | "inline" => pure .inline
   | "anyOf" => pure .anyOf | "oneOf" => pure .oneOf | "allOf" => pure .allOf | "notF" => pure .notF
-  | "any" => pure .any | "document" => pure .document | "mapping" => pure .mapping | "names" => pure .names
+  | "any" => pure .any | "owner" => pure .owner | "document" => pure .document | "mapping" => pure .mapping | "names" => pure .names
   | "required" => pure .required | "enumValues" => pure .enumValues | "default" => pure .default
   | "schema" => pure .schema | "fieldState" => pure .fieldState
   | s => throw s!"unknown kind {s}"
@@ -49,6 +51,14 @@ partial def shapeOf (j : Json) : Except String Shape :=
       return .coll (← kindOf (← x.getStr?)) (← shapeOf (← j.getObjVal? "item"))
     if let .ok x := j.getObjVal? "w" then
       return .wrap (← kindOf (← x.getStr?)) (← shapeOf (← j.getObjVal? "inner"))
+    if let .ok x := j.getObjVal? "o" then return .owned (← shapeOf x)
+    if let .ok x := j.getObjVal? "wn" then
+      let opts ← (← (← j.getObjVal? "opts").getArr?).toList.mapM shapeOf
+      let pick ← match j.getObjVal? "pick" with
+        | .ok (.str "first") => pure Pick.firstFit
+        | .ok p => do pure (Pick.fixed (← p.getNat?))
+        | .error _ => pure Pick.firstFit
+      return .wrapN (← kindOf (← x.getStr?)) pick opts
     if let .ok x := j.getObjVal? "k" then
       let fs ← (← (← j.getObjVal? "fields").getArr?).toList.mapM fun f => do
         let p ← f.getArr?
@@ -61,7 +71,9 @@ partial def shapeOf (j : Json) : Except String Shape :=
 def itemOf (j : Json) : Except String Item :=
   match j.getObjVal? "r" with
   | .ok a => do pure (.ref (← a.getNat?))
-  | .error _ => pure (.atom 0)
+  | .error _ => match j.getNat? with
+    | .ok n => pure (.atom n)
+    | .error _ => pure (.atom 0)
 
 def cellOf (j : Json) : Except String Cell := do
   let p ← j.getArr?
@@ -72,7 +84,9 @@ def cellOf (j : Json) : Except String Cell := do
     pure ((← q[0]!.getStr?), (← itemOf q[1]!))
   pure ⟨← p[0]!.getStr?, items⟩
 
-def mutableTag (t : String) : Bool := t == "list" || t == "dict" || t == "set" || t == "deque" || t == "inst"
+def mutableTag (t : String) : Bool :=
+  t == "list" || t == "dict" || t == "set" || t == "deque" || t == "inst" ||
+  t == "wlist" || t == "wdict" || t == "wdeque" || t == "iinst"
 
 def modeName : Mode → String
   | .rebuild => "rebuild" | .alias => "alias" | .shallow => "shallow" | .deep => "deep" | .error => "error"
